@@ -596,7 +596,7 @@ func (r *Run) Finish() {
 		"counters":            r.counters,
 		"maxima":              r.maxes,
 		"known_findings_hit":  knownSeen,
-		"inconclusive":        r.inconcl,
+		"inconclusive":        nonNil(r.inconcl),
 	}
 	if r.ntOverflow > 0 {
 		cov["distinct_nontrivial_note"] = fmt.Sprintf("fingerprint table full; %d further new fingerprints not counted", r.ntOverflow)
@@ -617,7 +617,7 @@ func (r *Run) Finish() {
 	}
 	ev := map[string]interface{}{
 		"property_id": r.Prop, "tier": r.Tier, "seed": r.Seed, "level": r.Level, "coverage": cov,
-		"assumptions": r.assume, "wall_s": time.Since(r.start).Seconds(), "violations": len(fresh),
+		"assumptions": nonNil(r.assume), "wall_s": time.Since(r.start).Seconds(), "violations": len(fresh),
 		"verdict": verdict(len(fresh), len(r.inconcl)),
 		"go": runtime.Version(),
 	}
@@ -648,6 +648,13 @@ func (r *Run) Finish() {
 		os.Exit(2)
 	}
 	os.Exit(0)
+}
+
+func nonNil(s []string) []string {
+	if s == nil {
+		return []string{}
+	}
+	return s
 }
 
 func verdict(v, inc int) string {
